@@ -362,17 +362,21 @@ pub fn has_rabbit(b: &Board, gold: bool) -> bool {
     }
 }
 
-/// The mover has at least one legal step at the start of a turn (step 0, nothing pending).
-pub fn has_legal_step_at_turn_start(b: &Board, gold_to_move: bool) -> bool {
+/// The mover has at least one legal step (all 64 squares x 4 directions, straight-line).
+pub fn has_legal_step(b: &Board, gold_to_move: bool, step: usize, pending: Pending) -> bool {
     let mut any = false;
-    let mut i = 0u8;
-    while i < 64 {
-        each!([0u8, 1u8, 2u8, 3u8], d, {
-            any |= legal_step(b, gold_to_move, 0, Pending::None, i, d);
+    each!([0u8, 1, 2, 3, 4, 5, 6, 7], r, {
+        each!([0u8, 1, 2, 3, 4, 5, 6, 7], f, {
+            each!([0u8, 1, 2, 3], d, {
+                any |= legal_step(b, gold_to_move, step, pending, r * 8 + f, d);
+            });
         });
-        i += 1;
-    }
+    });
     any
+}
+
+pub fn has_legal_step_at_turn_start(b: &Board, gold_to_move: bool) -> bool {
+    has_legal_step(b, gold_to_move, 0, Pending::None)
 }
 
 /// Official order at the start of a turn; `gold_to_move` is the player to move, the other
@@ -443,4 +447,35 @@ pub fn flip_dir(d: u8) -> u8 {
     } else {
         d
     }
+}
+
+/// Squares filled after k placements (k in 0..=32), by coordinates.
+pub fn setup_filled(k: u8) -> u64 {
+    let mut m = 0u64;
+    each!(
+        [0u8, 1, 2, 3, 4, 5, 6, 7, 8, 9, 10, 11, 12, 13, 14, 15, 16, 17, 18, 19, 20, 21, 22, 23, 24, 25, 26, 27, 28, 29, 30, 31],
+        j,
+        {
+            if j < k {
+                m |= 1u64 << (setup_next_square(j) as u32);
+            }
+        }
+    );
+    m
+}
+
+/// Gold's home ranks (1 and 2 = rows 7 and 6).
+pub fn gold_home() -> u64 {
+    let mut m = 0u64;
+    each!([0u8, 1, 2, 3, 4, 5, 6, 7], f, {
+        m |= 1u64 << ((6 * 8 + f) as u32);
+        m |= 1u64 << ((7 * 8 + f) as u32);
+    });
+    m
+}
+
+/// Setup-state generator predicate: after k placements the first k squares of the order are
+/// filled with arbitrary types within the per-side limits, owners by rank, all else empty.
+pub fn setup_state_ok(b: &Board, k: u8) -> bool {
+    b.well_formed() && b.all() == setup_filled(k) && b.p1 == (b.all() & gold_home()) && b.material_ok()
 }
